@@ -175,6 +175,50 @@ SEEDS4 = {
  ('C20','B'): ('action/ons', 'DeleteAllSubdomains walks committed keys only: a sub-name created in the block in which its parent is bought'),
 }
 
+# Round 5 (written against 14da34d; stored as variants K/L; sources in /tmp/wt5_<Cxx>/_seed)
+SEEDS5 = {
+ ('C01','A'): ('identity', 'CheckMaliciousValidators ranges the cumulative-vote map directly: four or more active validators fall below the required votes in the same block for the first time (the new suspicious-validator records enter the tree in map order); diverges on a fraction of runs'),
+ ('C01','B'): ('external_apps/bid/bid_block_func', 'CloseBidConv deletes before it writes and leaves the shared store on the target prefix: on one node only, a CheckTx of a closing bid transaction as the last bid handler before the BeginBlock in which another conversation expires'),
+ ('C02','A'): ('external_apps/bid/bid_action', 'the owner decision fetches the active offer of any type: bid, owner\'s counter offer (the bid is unlocked), then BID_OWNER_DECISION accept by the owner: the owner is credited the counter offer nobody paid'),
+ ('C02','B'): ('app', 'the burnt-out pull is capped by the delegation pool\'s balance instead of the rewards pool\'s: schedule over, rewards pool below the burn-out rate, delegations exist'),
+ ('C03','A'): ('external_apps/bid/bid_action', 'bidder decision accepts either party and debits the conversation\'s bidder: the owner sends BID_BIDDER_DECISION naming itself after its own counter offer: the bidder pays without signing'),
+ ('C03','B'): ('app', 'DeliverTx skips Validate while no tx index is installed (handshake replay): a block with a forged-signer transaction, the node killed between Tendermint\'s save and the application\'s commit, restart'),
+ ('C04','A'): ('action/olvm', 'the gas put into the signed EVM message is clamped at the simulation block gas limit: a transaction signed with fee.gas at or above that limit, fee.gas then rewritten'),
+ ('C04','B'): ('action/transfer', 'secp256k1 verification without the low-S rule: S replaced by N-S on a secp256k1-signed transaction'),
+ ('C05','A'): ('app', 'the canonical-encoding check accepts & < > written literally: an executed transaction whose memo holds such characters, resubmitted with the escapes replaced'),
+ ('C05','B'): ('app', 'a signer\'s public key may carry trailing bytes: an executed native transaction resubmitted with bytes appended to signatures[i].Signer.data'),
+ ('C06','A'): ('external_apps/bid/bid_block_func', 'CloseBidConv order (as C01-L): an accept that fails at its last step after closing the conversation, no bid handler before the next BeginBlock, another conversation expiring there'),
+ ('C06','B'): ('action/network_delegation', 'ADD_NETWORK_DELEGATE relies on the store\'s current prefix: a NETWORK_UNDELEGATE that fails in its fee step, then a delegation'),
+ ('C07','A'): ('data/governance', 'last-update heights memoised next to the shared state pointer: CheckTx of a PROPOSAL_FINALIZE of a passed configuration proposal before the block end has finalised it'),
+ ('C07','B'): ('app', 'external-app block function parameters built once per block: a CheckTx after the last DeliverTx and before EndBlock of a block in which a bid conversation expires'),
+ ('C08','A'): ('identity', 'the per-block reset of the malicious list moved behind the early returns: a frozen validator, then a governance change raising evidenceOptions.blockVotesDiff above the current height, then a restart of one node'),
+ ('C08','B'): ('external_apps/bid/bid_block_func', 'CloseBidConv order (as C01-L): one conversation open, another closed with no bid handler afterwards, the first one\'s deadline passes, one node restarts in that window'),
+ ('C09','A'): ('storage', 'Set skips a write equal to the committed value: key committed with X, a pending different write or delete in the block, then X written again'),
+ ('C09','B'): ('storage', 'Commit commits a tx session that is still open: a session neither committed nor discarded at block commit'),
+ ('C10','A'): ('identity', 'the election walks the heap\'s backing array instead of popping it: more eligible candidates than seats and a stake arrangement in which the first entries of the array are not the largest'),
+ ('C10','B'): ('identity', 'a validator released in this block is cleared from the frozen list at election time: a successful RELEASE delivered in block h, positive update already at the end of h'),
+ ('C11','A'): ('action/staking', 'a second report keeps the existing (released) freeze record: freeze, release, second verdict or missed votes, then UNSTAKE / WITHDRAW'),
+ ('C11','B'): ('identity', 'HandleUnstake writes the validator record before the purge-window refusal: the guilty verdict falls in the block end that purges the validator (unstake below the minimum and allegation in block H-1, votes in H): the postponed cut is applied twice'),
+ ('C12','A'): ('action/network_delegation', 'a reinvestment above the accrued rewards is capped for the debit but not for the active amount: reinvest more than has accrued'),
+ ('C12','B'): ('app', 'the pending-rewards walk stops at a zero-valued record: two or more reward withdrawals maturing at one height, a zero-amount one from the lowest-sorting address'),
+ ('C13','A'): ('app', 'the proposer\'s cut of the delegation commission is computed after the deduction: small non-zero delegation pool, proposer among the signers, few absent signers'),
+ ('C13','B'): ('data/rewards', 'the distributed-till-last-cycle snapshot is taken one block late: two completed cycles and a restart inside a cycle'),
+ ('C14','A'): ('action/governance', 'the no share is divided by all power instead of the power that did not give up: a give-up vote plus no votes in the window between the two quotients'),
+ ('C14','B'): ('action/governance', 'cancel refused only when both conditions are violated: cancel by the proposer while the proposal is being voted on (before the funding deadline), or after the funding deadline while under-funded'),
+ ('C15','A'): ('event', 'the lock engine\'s clean-up writes and deletes under one prefix: lock, mint, block-end clean-up, the same external transaction submitted again'),
+ ('C15','B'): ('app', 'doEthTransitions no longer re-aims the tracker store: a CheckTx that reaches a handler after the last DeliverTx and before EndBlock of a block in which a tracker is due a transition'),
+ ('C16','A'): ('vm', 'second and later writes of a slot in one transaction are not journaled: the same slot written at two snapshot depths, the later write rolled back'),
+ ('C16','B'): ('vm', 'access list: reverting the last slot of an address deletes the address entry: an address warm before the snapshot, its first slot warmed in a reverting frame, accessed again'),
+ ('C17','A'): ('action/olvm', 'CreateAccount adds the carried-over balance to an object that already has it: value sent to the address a later deployment of the sender gets, then that deployment'),
+ ('C17','B'): ('action/olvm', 'the EIP-155 signer is built from the payload\'s chain id: a transaction made consistently for another network (payload chain id and signature)'),
+ ('C18','A'): ('external_apps/bid/bid_action', 'the OLT-only rule is enforced only when a conversation is opened: bid in OLT, owner\'s counter offer, then the bidder\'s follow-up offer in another registered currency: Coin comparison calls logger.Fatal'),
+ ('C18','B'): ('vm', 'access list keeps a stale slot index after the last slot of an address is reverted: a deployed contract whose sub-call touches its storage for the first time and reverts, then the storage is accessed again (panic in DeliverTx only)'),
+ ('C19','A'): ('action/evidence', 'the frozen check on voters is dropped: two open allegations, one decided guilty at H, the convicted validator (frozen, still flagged active) votes on the other in H+1'),
+ ('C19','B'): ('identity', 'as C11-L (same site): purge and guilty verdict in the same block end: the validator record is cut twice'),
+ ('C20','A'): ('action/ons', 'purchase treats the block in which version == expiry height as expired: a purchase delivered in exactly that block'),
+ ('C20','B'): ('action/ons', 'create is refused only for names that are active: a stranger\'s create on a name that is on sale, deactivated or expired'),
+}
+
 def keep(pid, v, newv, pkg, needs, src):
     pass
 
@@ -276,6 +320,29 @@ if __name__ == '__main__':
                 'demo': {'file': 'demo_test.go.txt', 'belongs_in': pkg, 'run': 'see NOTES.txt (demonstrations in package app and action/ons are compiled with the non-test files only)'},
                 'needs_to_manifest': needs,
                 'confirmed': 'by me in the scratch worktree the change was written in (e691428): the demonstration passes without the change and fails with it; go test -vet=off -count=1 ./... keeps its failing set (seedverify.sh / seedverify_app.sh with WT_PREFIX=/tmp/wt4_)'}
+        old = {}
+        if os.path.exists(f'{dst}/meta.json'):
+            old = json.load(open(f'{dst}/meta.json'))
+        for k in ('checks_run', 'result'):
+            if k in old: meta[k] = old[k]
+        json.dump(meta, open(f'{dst}/meta.json', 'w'), indent=1)
+        print('kept', dst)
+
+    for (pid, v), (pkg, needs) in sorted(SEEDS5.items()):
+        src = f'/tmp/wt5_{pid}/_seed'
+        if not os.path.exists(f'{src}/{v}.diff'):
+            print('missing', pid, v); continue
+        newv = {'A': 'K', 'B': 'L'}[v]
+        dst = f'/verif/seeded/{pid}-{newv}'
+        os.makedirs(dst, exist_ok=True)
+        shutil.copy(f'{src}/{v}.diff', f'{dst}/patch.diff')
+        shutil.copy(f'{src}/demo_{v}_test.go', f'{dst}/demo_test.go.txt')
+        if os.path.exists(f'{src}/NOTES.txt'):
+            shutil.copy(f'{src}/NOTES.txt', f'{dst}/NOTES.txt')
+        meta = {'property': pid, 'variant': f'{newv} (round 5, {v} of its author)',
+                'demo': {'file': 'demo_test.go.txt', 'belongs_in': pkg, 'run': 'see NOTES.txt (demonstrations in package app and action/ons are compiled with the non-test files only)'},
+                'needs_to_manifest': needs,
+                'confirmed': 'by me in the scratch worktree the change was written in (14da34d): the demonstration passes without the change and fails with it; go test -vet=off -count=1 ./... keeps its failing set (seedverify.sh / seedverify_app.sh with WT_PREFIX=/tmp/wt5_)'}
         old = {}
         if os.path.exists(f'{dst}/meta.json'):
             old = json.load(open(f'{dst}/meta.json'))
